@@ -466,8 +466,11 @@ impl<K1: Clone + Eq + Hash, K2: Copy + Eq + Hash, V: PartialEq> PartitionedCache
                     self.current_size -= 1;
 
                     if dup_expiry == partition.next_expiry {
+                        // the duplicate may have been the next record to
+                        // expire: recompute over every record of the
+                        // partition, not just this record key
                         let mut new_next_expiry = expiry;
-                        for (_, e) in tuples {
+                        for (_, e) in partition.records.values().flatten() {
                             if *e < new_next_expiry {
                                 new_next_expiry = *e;
                             }
